@@ -221,7 +221,8 @@ func init() {
 			bRace, bPlain, budget = 2, 2, 2400
 		}
 		var jobs []check.Job
-		core := []string{"c07-join-vs-lastleave-close", "c07-lastleave-vs-lastleave", "c07-create-vs-create", "c10-eadd-eadd", "c10-join-join", "c10-tadd-same", "c10-asset-asset", "c09-quad-quad", "c09-quad-region", "c09-mergequad-region", "c09-first-joins", "c07-lastleave-vs-create", "c06-lastleave-entity-vs-join"}
+		core := []string{"c07-join-vs-lastleave-close", "c07-lastleave-vs-lastleave", "c07-create-vs-create", "c10-eadd-eadd", "c10-join-join", "c10-tadd-same", "c10-asset-asset", "c09-quad-quad", "c09-quad-region", "c09-mergequad-region", "c09-first-joins", "c07-lastleave-vs-create", "c06-lastleave-entity-vs-join",
+			"c11-pending-pose-tick-vs-close", "c11-pending-pose-tick-vs-switch", "c11-pending-cupd-tick-vs-close", "c11-pending-cupd-tick-vs-switch"}
 		for _, b := range core {
 			pb := bPlain + 1
 			if tier != "thorough" && (b == "c07-create-vs-create" || b == "c07-lastleave-vs-lastleave" || b == "c07-lastleave-vs-create") {
